@@ -49,6 +49,20 @@ def rule_remove_hides(ctx, crate, rule="R-REMOVE-HIDES"):
                   "a removed bar keeps its remote draw target (it can still paint into a freed slot)", cfg)
 
 
+    # ... removing a bar changes where it draws, nothing else: remove() calls nothing that writes the bar's logical state
+    #     (position, length, message, status, estimator) — a removed bar keeps evolving like a visible one
+    writes = {x.name for x in K.lib_bodies(crate) if direct_sinks(x)}
+    g = K.callgraph(crate)
+    chg = True
+    while chg:
+        chg = False
+        for n_, cs_ in g.items():
+            if n_ not in writes and cs_ & writes:
+                writes.add(n_)
+                chg = True
+    noisy = sorted({c.path for c in b.calls() if any(t in writes for t in [c.path] + crate.resolve_targets(c))} | {what for bb, what, line, obj in direct_sinks(b)})
+    ctx.check(not noisy, rule, "remove-is-state-neutral", b.name, K.fn_loc(b), "remove() writes no logical bar state",
+              "remove() changes the bar's logical state (%s): a removed bar no longer evolves like a visible one" % noisy[:3], cfg)
     # ... and on every path: the only way out of remove() without hiding the bar is the "not a member" edge of remote()
     none_edges = []
     for sb, t, pl, d in K.discr_switches(b):
